@@ -9,14 +9,14 @@ RULE = ("kernel level: ALL ordered pairs of canonical sets with <=3 intervals on
         "with the pointwise Boolean oracle on the half-integer grid; API level: seeded pairs at scales 1us/2us/1ms/1s, "
         "pointwise oracle for instants farther than 1us from every endpoint, endpoint provenance, commutativity, A op A, "
         "A op empty, duration identities within 1us per junction, TsGroup n-ary union. distinct = distinct ordered pairs")
-PROVED = ("intersect_entries / _sound / _positive (every emitted interval of jitintersect is A[i] ∩ B[j] of its recorded parents, "
-          "positive length; any sizes, any coincidences), intersect_pairs_complete / intersect_complete / intersect_pointwise "
-          "(canonical operands: x not an endpoint of A lies in A.intersect(B) iff x in A and x in B); diff_entries / diff_subset "
-          "(every piece inside its recorded parent), diff_complete (every instant of A outside B is in a piece; no hypothesis), "
-          "diff_between / diff_avoids / diff_pointwise (canonical operands: x not an endpoint of B lies in A.set_diff(B) iff x in A "
-          "and x not in B); unionIsets_mem (n-ary union kernel = pointwise union, exactly)")
-NOT_PROVED = ("pointwise theorem for the BINARY jitunion (chain merging), commutativity, duration identities: decided by the "
-              "exhaustive order-type correspondence and the pointwise oracle only")
+PROVED = ("for canonical operands, all three kernels are the Boolean operations pointwise: union_pointwise (x in an interval emitted by "
+          "jitunion iff x in A or x in B; + union_comm_pointwise, union_idem_pointwise), intersect_pointwise (x not an endpoint of A: in "
+          "A.intersect(B) iff in A and in B; from intersect_entries / _sound / _positive / intersect_pairs_complete / intersect_complete), "
+          "diff_pointwise (x not an endpoint of B: in A.set_diff(B) iff in A and not in B; from diff_entries / diff_subset / diff_complete / "
+          "diff_between / diff_avoids); unionIsets_mem (n-ary union kernel = pointwise union, exactly)")
+NOT_PROVED = ("the 1-microsecond touch separation applied by the IntervalSet constructor to the kernel output (C01: canonical form is proved, "
+              "coverage up to the trim is not), duration identities: decided by the exhaustive order-type correspondence and the pointwise "
+              "oracle only")
 ASSUMPTIONS = ["operands are canonical (C01)"]
 
 
